@@ -295,7 +295,7 @@ impl Prop for C15 {
                 let cap = match kind { SpKind::Tree(_, ty) => ty.max().min(4095), _ => 255 };
                 let prof = prop_oneof![
                     2 => Just(Profile::Uniform), 2 => (1u8..=7).prop_map(Profile::Geometric), 2 => (1u8..=3).prop_map(Profile::Zipf),
-                    1 => Just(Profile::OneRare), 1 => Just(Profile::TwoFrequent), 1 => Just(Profile::Fib), 1 => Just(Profile::Deep(4)), 1 => Just(Profile::Deep(2)), 1 => (1u8..=4).prop_map(Profile::Ties)
+                    1 => Just(Profile::OneRare), 1 => Just(Profile::TwoFrequent), 1 => Just(Profile::Fib), 1 => Just(Profile::Deep(4)), 1 => Just(Profile::Deep(2)), 1 => (1u8..=4).prop_map(Profile::Ties), 1 => prop_oneof![Just(8u8), 2u8..20].prop_map(Profile::HeavyTied)
                 ].boxed();
                 (Just(kind), Just(path), recipe(n_strategy(14, kmax, true), cap, prof), Just(tie))
             })
@@ -334,6 +334,15 @@ impl Prop for C15 {
             v.push(SpaceCase {
                 kind: SpKind::Tree(kind, ElemTy::U8), path: 0,
                 recipe: Recipe { n: 4_000_000, alphabet: alpha.clone(), profile: Profile::Geometric(2), arr: Arr::Padded(true, 9), seed },
+                tie_seed: seed, extra_capacity: 0, bits: None,
+            });
+        }
+        // dense alphabets of 4^k (2^k) symbols, one of them k times as frequent as the others,
+        // which are exactly tied
+        for (kind, sigma, k, n, seed) in [(TreeKind::Hqwt256, 16u128, 8u8, 460_000usize, 14u64), (TreeKind::Hqwt512, 64, 8, 500_000, 15), (TreeKind::Hqwt256Pfs, 16, 3, 300_000, 16), (TreeKind::Hwt, 32, 5, 300_000, 17)] {
+            v.push(SpaceCase {
+                kind: SpKind::Tree(kind, ElemTy::U8), path: 0,
+                recipe: Recipe { n, alphabet: (0..sigma).collect(), profile: Profile::HeavyTied(k), arr: Arr::Shuffled, seed },
                 tie_seed: seed, extra_capacity: 0, bits: None,
             });
         }
